@@ -126,11 +126,28 @@ def ammonia_water_r3():
     return xtal.make_crystal(148, "H", cell, ["N", "H", "O", "H", "H"], frac, labels=["N1", "H1", "O1", "H2", "H3"])
 
 
+def near_axis_r3():
+    """R3 (hexagonal axes): a 1/3-occupancy site 0.04 A off the three-fold axis (its three images lie INSIDE the 0.01 merge
+    tolerance of unit_cell_atoms but outside 0.001) next to an ordinary water - disordered sites like this are common"""
+    from mc.ref import lattice
+
+    cell = (12.0, 12.0, 10.0, 90.0, 90.0, 120.0)
+    M = lattice.cell_matrix(*cell)
+    Mi = np.linalg.inv(M)
+    o = np.array([0.42, 0.12, 0.30]) @ M
+    h1 = o + np.array([0.757, 0.586, 0.0])
+    h2 = o + np.array([-0.757, 0.586, 0.0])
+    frac = np.vstack([[0.0033, 0.0, 0.25], o @ Mi, h1 @ Mi, h2 @ Mi])
+    return xtal.make_crystal(146, "H", cell, ["Ar", "O", "H", "H"], frac, labels=["Ar1", "O1", "H1", "H2"], occupation=[1 / 3, 1.0, 1.0, 1.0])
+
+
 def initial(kind):
     from chmpy.crystal import Crystal
 
     if kind == "ammonia_water_H":
         return ammonia_water_r3()
+    if kind == "near_axis_H":
+        return near_axis_r3()
 
     if kind == "water_H":
         return water_r3("H")
@@ -275,7 +292,7 @@ def aliasing_worker(part, job):
 
 
 def run(ctx):
-    kinds = ["water_H", "water_R", "water_H_cif", "r3c_example", "ammonia_water_H"]
+    kinds = ["water_H", "water_R", "water_H_cif", "r3c_example", "ammonia_water_H", "near_axis_H"]
     max_depth = 8 if ctx.thorough else 6
     cap = 20000 if ctx.thorough else 1500
     ctx.bounds = {"alphabet": ALPHABET, "structures": kinds, "max_depth": max_depth, "state_cap": cap}
@@ -312,7 +329,7 @@ def run(ctx):
 
     alias_depth = 2 if ctx.thorough else 2
     prefixes = [(k, list(h)) for k in kinds for L in range(1, alias_depth + 1) for h in it.product(ALPHABET, repeat=L)
-                if any(x in QUERIES for x in h) and (L == 1 or k in ("water_H", "ammonia_water_H", "water_H_cif") or ctx.thorough)]
+                if any(x in QUERIES for x in h) and (L == 1 or k in ("water_H", "ammonia_water_H") or ctx.thorough)]
     ctx.pmap(aliasing_worker, prefixes)
     ctx.bounds["aliasing_histories"] = "%d prefixes of length <= %d (no deduplication) x %d final operations" % (len(prefixes), alias_depth, len(ALPHABET))
     # secondary binding: TLA+ memo-protocol model explored by TLC, every edge replayed on the real object
